@@ -944,7 +944,16 @@ func (e *Engine) zeroOrNil(t types.Type) Value {
 // ---- type assertions
 
 func (e *Engine) implements(t types.Type, it *types.Interface) bool {
-	return types.Implements(t, it)
+	k := implKey{t, it}
+	if v, ok := e.implCache[k]; ok {
+		return v
+	}
+	v := types.Implements(t, it)
+	if e.implCache == nil {
+		e.implCache = map[implKey]bool{}
+	}
+	e.implCache[k] = v
+	return v
 }
 
 func (e *Engine) typeAssert(instr *ssa.TypeAssert, x Value) Value {
